@@ -115,6 +115,7 @@ func runC02(c *Ctx) {
 				}
 			}
 			okZero := outV != nil
+			var wipeAt *ssa.BasicBlock
 			detail := "decryption output region not found"
 			if okZero {
 				okZero = false
@@ -145,12 +146,25 @@ func runC02(c *Ctx) {
 					})
 					if bound {
 						okZero = true
+						wipeAt = innermostLoopHeader(st.Block())
 					}
 				})
 				// clear(out) builtin form
 				for _, ci := range calls(f, nameIs("builtin:clear")) {
 					if ci.Common().Args[0] == outV && r[ci.Block()] {
 						okZero = true
+						wipeAt = ci.Block()
+					}
+				}
+				// the wipe is unconditional: no path from the failure edge to a return
+				// goes around the zeroing loop (its header) / the clear call
+				if okZero && wipeAt != nil && fail[0].to() != wipeAt {
+					ra := reachAvoiding([]*ssa.BasicBlock{fail[0].to()}, nil, map[*ssa.BasicBlock]bool{wipeAt: true})
+					for _, ret := range returnsOf(f) {
+						if ra[ret.Block()] {
+							okZero = false
+							detail = "the wipe of the output region after a failed authentication is conditional: a path from the failure edge to the return goes around it, leaving unauthenticated plaintext in the caller's buffer"
+						}
 					}
 				}
 			}
